@@ -25,7 +25,7 @@ from harness.ledger_util import run_b3
 
 BOUNDS = {   # tier -> (MaxLaunch for B1 and launch-level replay, longest list replayed through real elements)
     'quick': (3, 2),
-    'thorough': (3, 3),
+    'thorough': (4, 3),
 }
 MODEL_BANDS = {   # must be the constants of MC_ChannelSet (checked against the real equipment before replaying)
     'multi': [[-1875000, 3025000], [-6600000, -3000000]],
@@ -36,10 +36,9 @@ MODEL_BANDS = {   # must be the constants of MC_ChannelSet (checked against the 
 
 
 def cfg(maxlaunch, emit):
+    """every clause of MC_ChannelSet.cfg; with emit the same run also prints every finished walk for the replay"""
     base = (tlc.SPEC / 'MC_ChannelSet.cfg').read_text().replace('MaxLaunch = 3', f'MaxLaunch = {maxlaunch}')
-    if emit:
-        base = '\n'.join(ln for ln in base.splitlines() if not ln.startswith('INVARIANT')) + '\nINVARIANT Emit\n'
-    return base
+    return base + ('INVARIANT Emit\n' if emit else '')
 
 
 # --------------------------------------------------------------------------------------------- real-code side (B2)
@@ -193,16 +192,17 @@ def replay_walk(bench, js, chk, through_elements):
 
 def run(chk):
     maxlaunch, through = BOUNDS[chk.tier]
-    r = tlc.run('MC_ChannelSet', cfg_text=cfg(maxlaunch, emit=False), timeout=3000, tag='c07-mc')
-    chk.add_mc(f'MC_ChannelSet MaxLaunch={maxlaunch}', r)
+    # B1 and the emission for B2 in one exhaustive run: all clauses as invariants, every finished walk printed
+    r2 = tlc.run('MC_ChannelSet', cfg_text=cfg(maxlaunch, emit=True), timeout=3000, tag='c07-mc')
+    chk.add_mc(f'MC_ChannelSet MaxLaunch={maxlaunch} (all clauses + emission)', r2)
     for w in ('WitnessMultiSplit', 'WitnessDropped'):
         base = '\n'.join(ln for ln in cfg(3, emit=False).splitlines() if not ln.startswith('INVARIANT'))
         rw = tlc.run('MC_ChannelSet', cfg_text=base + f'\nINVARIANT {w}\n', timeout=600, tag='c07-witness')
         if rw.violated != w:
             raise Machinery(f'vacuous model: {w} is not reachable')
+    if not any(js['status'] == 'SpectrumError' for js in r2.emitted) or not any(js['status'] == 'NoChannel' for js in r2.emitted):
+        raise Machinery('vacuous model: no rejected / no empty launch among the emitted walks')
     chk.exhaustive = True
-    r2 = tlc.run('MC_ChannelSet', cfg_text=cfg(maxlaunch, emit=True), timeout=3000, tag='c07-emit')
-    chk.add_mc(f'emit MaxLaunch={maxlaunch}', r2)
     bench = Bench()
     seen_inputs = set()
     walks = launches = 0
@@ -248,17 +248,24 @@ def _mut_band_edges_exclusive():
     info.is_in_band = is_in_band
 
 
-def _mut_touching_slots_rejected():
-    import gnpy.core.info as info
-    from gnpy.core.exceptions import SpectrumError
-    orig = info.SpectralInformation.__init__
+def _rewrite(cls, name, old, new):
+    """re-compile a method of the anchored code with one expression replaced (in-process only)"""
+    import inspect
+    import sys
+    import textwrap
+    src = textwrap.dedent(inspect.getsource(getattr(cls, name)))
+    if old not in src:
+        raise Machinery(f'mutant: text to replace not found in {cls.__name__}.{name}')
+    ns = {}
+    exec(compile(src.replace(old, new), f'<mutant {cls.__name__}.{name}>', 'exec'), sys.modules[cls.__module__].__dict__, ns)
+    setattr(cls, name, ns[name])
 
-    def init(self, *a, **k):                               # >= instead of > in the overlap test
-        orig(self, *a, **k)
-        f, w = self._frequency, self._slot_width
-        if np.any(f[:-1] + w[:-1] / 2 >= f[1:] - w[1:] / 2):
-            raise SpectrumError('Spectrum required slot widths larger than the frequency spectral distances')
-    info.SpectralInformation.__init__ = init
+
+def _mut_overlap_uses_left_width():
+    import gnpy.core.info as info
+    # overlap test takes the left neighbour's width on both sides: wrong as soon as slot widths differ
+    _rewrite(info.SpectralInformation, '__init__', 'self._frequency[1:] - self._slot_width[1:] / 2',
+             'self._frequency[1:] - self._slot_width[:-1] / 2')
 
 
 def _mut_label_not_sorted():
@@ -312,7 +319,7 @@ def _mut_common_range_first_amp_only():
     rq.find_elements_common_range = find_elements_common_range
 
 
-MUTANTS = {'band_edges_exclusive': _mut_band_edges_exclusive, 'touching_slots_rejected': _mut_touching_slots_rejected,
+MUTANTS = {'band_edges_exclusive': _mut_band_edges_exclusive, 'overlap_uses_left_width': _mut_overlap_uses_left_width,
            'label_not_sorted': _mut_label_not_sorted, 'multiband_forgets_a_band': _mut_multiband_forgets_a_band,
            'baud_check_tolerant': _mut_baud_check_tolerant,
            'common_range_first_amp_only': _mut_common_range_first_amp_only}
